@@ -2,6 +2,8 @@
 import ast
 
 from ..core import AnalysisError, where, norm
+from ..srcmodel import walk_no_nested
+from ..shapes import u
 from ..liftforms import LifterModel
 from ..lifter import LiftError, Term, show
 from ..irsets import rw_sets, reads_of, mem_mentions, load_effects_ref, load_cc_ref, cc_flags, load_getr_spec
@@ -120,7 +122,7 @@ def run(ctx, report):
         if cc and name not in ('jmp', 'jmpf', 'jecxz', 'setalc'):
             rname = FAMILIES[cc[0]]
             ccflags = cc_flags(ccref[cc[1]]['pred'])
-        e = eff.get(rname)
+        e = eff.get('%s/%d' % (rname, len(inst.args or []))) or eff.get(rname)
         if e is None:
             continue
         R = R2 if e['ext'] else R1
@@ -128,6 +130,7 @@ def run(ctx, report):
             if isinstance(tmpl, LiftError) or not isinstance(tmpl, list):
                 continue
             seen_names.add(rname)
+            seen_names.add('%s/%d' % (rname, len(inst.args or [])))
             rid, rmem, wid, wmem = rw_sets(tmpl)
             rmem_keys = set(m.key() for m in rmem)
             wmem_keys = set(m.key() for m in wmem)
@@ -151,6 +154,14 @@ def run(ctx, report):
                 want_r = [x for x in want_r if x != 'op0']
             if rname in ('ret', 'retf') and args:
                 pass
+            # NR:opK = operand K is overwritten before the stack moves: its old value is not an input
+            not_read = set()
+            for item in [x for x in want_r if x.startswith('NR:op')]:
+                want_r.remove(item)
+                k_ = int(item[5:])
+                if k_ < len(args) and base_id(args[k_]).kind == 'Id':
+                    not_read.add(base_id(args[k_]).name)
+            want_r = [x for x in want_r if x not in not_read]
             missing = []
             for item in want_r:
                 if item == 'CC':
@@ -265,6 +276,81 @@ def run(ctx, report):
     from .c04 import stack_operand_rule
     stack_operand_rule(ctx, R6, L, L.sem)
 
+    # ---------------------------------------------------------------- D7 the repeat count of a rep-prefixed string instruction
+    R7 = report.rule('C08.D7', 'the lifted list of a rep-prefixed string instruction reads and writes the count register, for the same instructions the emulator repeats', floor=3)
+    rep_count_rule(ctx, R7)
+
+
+def rep_count_rule(ctx, R):
+    """emul_full_expr repeats a string instruction under F2/F3; the count register decides whether anything happens and is decremented, so the lifted
+    list of such an instruction has to assign ecx from ecx.  Checked: (1) the function that lifts an instruction (get_instr_expr_args) appends, under a
+    test of the prefix, an assignment to ecx whose source reads ecx; (2) that test and the one by which emul_full_expr chooses the repeat loop are the same
+    predicate (one function called by both, or the same prefix constants and mnemonic list)."""
+    from ..core import norm
+    eh = ctx.mod('emul_helper')
+    lift = eh.func('get_instr_expr_args')
+    emu = eh.func('emul_full_expr')
+
+    def rep_tests(fn):
+        out = []
+        for n in walk_no_nested(fn):
+            if isinstance(n, ast.If):
+                t = n.test
+                txt = u(t)
+                callee = None
+                for c in ast.walk(t):
+                    if isinstance(c, ast.Call) and isinstance(c.func, ast.Name) and c.func.id in eh.funcs:
+                        callee = c.func.id
+                        txt += ' ; ' + ' ; '.join(u(x) for x in eh.funcs[callee].body)
+                if '.prefix' in txt and ('243' in txt or '0xF3' in txt.upper().replace('0XF3', '0xF3')):
+                    out.append((n, callee, txt))
+        return out
+
+    def facts(txt):
+        consts = sorted(set(c.value for c in ast.walk(ast.parse('(%s)' % txt.replace(' ; ', ', ').replace('return ', ''), mode='eval')) if isinstance(c, ast.Constant)
+                            and isinstance(c.value, (int, str))), key=str)
+        names = set()
+        for nm in ast.walk(ast.parse('(%s)' % txt.replace(' ; ', ', ').replace('return ', ''), mode='eval')):
+            if isinstance(nm, ast.Name) and nm.id in eh.assigns:
+                v = eh.assign_value(nm.id)
+                if isinstance(v, ast.List):
+                    names.update(e.value for e in v.elts if isinstance(e, ast.Constant))
+        return set(consts) | names
+    lt, et = rep_tests(lift), rep_tests(emu)
+    if not et:
+        raise AnalysisError('emul_full_expr no longer selects the repeat loop by the F2/F3 prefix')
+    R.ok('emul_full_expr: repeat loop', sample='the emulator repeats under `%s`' % norm(et[0][0].test))
+    inst = 'get_instr_expr_args: count of a repeated string instruction'
+    if not lt:
+        R.violation(inst, 'rep-count:missing', 'get_instr_expr_args lifts a rep-prefixed string instruction as one unprefixed iteration: ecx, which decides whether anything happens and is '
+                    'decremented, is neither read nor written by the lifted list (emul_full_expr loops on it)', where(eh, lift),
+                    witness="get_instr_expr(dis(f3 a4)) = [@8[edi] = @8[esi], edi = .., esi = ..]: no ecx")
+        return
+    node, callee, txt = lt[0]
+    affs = [c for st in node.body for c in ast.walk(st) if isinstance(c, ast.Call) and u(c.func) == 'ExprAff' and len(c.args) == 2 and u(c.args[0]) == 'ecx']
+    ok_aff = False
+    for c in affs:
+        src = c.args[1]
+        srcs = [src]
+        if isinstance(src, ast.Name):
+            srcs = [a.value for a in ast.walk(node) if isinstance(a, ast.Assign) and u(a.targets[0]) == src.id]
+        if srcs and all(any(isinstance(x, ast.Name) and x.id == 'ecx' for x in ast.walk(s_)) for s_ in srcs):
+            ok_aff = True
+    if not ok_aff:
+        R.violation(inst, 'rep-count:not-assigned', 'under the prefix test get_instr_expr_args does not append an assignment of ecx from ecx', where(eh, node))
+    else:
+        R.ok(inst, sample='under `%s` the list gets ExprAff(ecx, f(ecx))' % norm(node.test))
+    inst2 = 'repeat predicate: lifter vs emulator'
+    if callee is not None and callee == et[0][1]:
+        R.ok(inst2, sample='both call %s' % callee)
+    else:
+        fl, fe = facts(txt), facts(et[0][2])
+        if fl == fe:
+            R.ok(inst2, sample='same prefix constants and mnemonic stems: %s' % sorted(fl, key=str))
+        else:
+            R.violation(inst2, 'rep-count:predicate', 'the lifter gives the count to %s, the emulator repeats %s' % (sorted(fl - fe, key=str) or 'fewer instructions',
+                                                                                                                  sorted(fe - fl, key=str) or 'fewer instructions'), where(eh, node))
+
 
 def _derived_cell(mems, m):
     """A cell whose address is computed from the operand's address (bit-string instructions address base + offset)."""
@@ -297,4 +383,12 @@ MUTANTS = [
     ('comis-nozf', 'miasmx/arch/ia32_sem.py', "    e.append(ExprAff(zf, ExprOp('MMX', a, b)))\n    e.append(ExprAff(cf, ExprOp('MMX', a, b)))", "    e.append(ExprAff(cf, ExprOp('MMX', a, b)))", 'C08.D2'),
     ('push-noesp', 'miasmx/arch/ia32_sem.py', "    c = ExprOp('-', esp, ExprInt32(s/8))\n    e.append(ExprAff(esp, c))\n    e.append(ExprAff(ExprMem(c, a.get_size()), a))", "    c = ExprOp('-', esp, ExprInt32(s/8))\n    e.append(ExprAff(ExprMem(c, a.get_size()), a))", 'C08.D1'),
     ('lods-noeax', 'miasmx/arch/ia32_sem.py', "    e.append(ExprAff(eax[0:a.get_size()], a))\n", "    e.append(ExprAff(edx[0:a.get_size()], a))\n", 'C08.D1'),
+    ('rep-count-dropped', 'miasmx/tools/emul_helper.py', "        e.append(ExprAff(ecx, count))\n", "        pass\n", 'C08.D7'),
+    ('rep-count-fewer-mnemonics', 'miasmx/tools/emul_helper.py', "    if is_rep_string(l):\n        # one iteration", "    if 0xF3 in l.prefix and l.m.name[:-1] in ['movs', 'stos']:\n        # one iteration", 'C08.D7'),
+    ('fcomip-no-pop', 'miasmx/arch/ia32_sem.py', "    e.append(ExprAff(cf, ExprCond(cond, ExprInt_from(zf, 0), ExprInt_from(zf, 1))))\n    e += float_pop()\n", "    e.append(ExprAff(cf, ExprCond(cond, ExprInt_from(zf, 0), ExprInt_from(zf, 1))))\n", 'C08.D2'),
+    ('fmulp-result-in-st0', 'miasmx/arch/ia32_sem.py', "    e.append(ExprAff(float_prev(dst), ExprOp('fmul', a, src)))\n    e += set_float_cs_eip(info)\n    e += float_pop(dst)", "    e.append(ExprAff(float_prev(a), ExprOp('fmul', a, src)))\n    e += set_float_cs_eip(info)\n    e += float_pop(a)", 'C08.D2'),
+    ('fsincos-no-stackptr', 'miasmx/arch/ia32_sem.py', "    e.append(ExprAff(float_st1, ExprOp('sin', float_st0)))\n    e.append(ExprAff(float_stack_ptr, ExprOp('+', float_stack_ptr, ExprInt32(1))))\n", "    e.append(ExprAff(float_st1, ExprOp('sin', float_st0)))\n", 'C08.D2'),
+    ('far-call-selector-dropped', 'miasmx/tools/emul_helper.py', "        e = mnemo_func[l.m.name](l, my_eip, *args)", "        e = mnemo_func[l.m.name](l, my_eip, args[0])", 'C08.D1'),
+    ('far-call-cs-not-pushed', 'miasmx/arch/ia32_sem.py', "        e.append(ExprAff(ExprMem(c_cs, size=s), old_cs))\n", "", 'C08.D1'),
+    ('cmpxchg8b-no-edx', 'miasmx/arch/ia32_sem.py', "    e.append(ExprAff(edx, ExprCond(cond, m[32:64], edx)))\n", "", 'C08.D1'),
 ]
